@@ -434,6 +434,10 @@ impl Harness for C04 {
         };
         for n in 2..=lbl1_max.max(lbl2_max) {
             for est in ["cls", "reg"] {
+                // no table is usable with fewer points than it has values (the target tables have 3)
+                if labels::eligible(est, n, false).is_empty() {
+                    continue;
+                }
                 if n <= lbl1_max {
                     for metric in lbl_metrics(n, lbl1_max) {
                         if n <= 3 {
